@@ -135,6 +135,11 @@ def intern_dedup(repo, res, rule="INTERN-DEDUP"):
 
 
 def run(repo, res, tier):
+    from vlib import rules_skips as SK, tables
+    # `the same literal expected at one point with two different descriptions` is the validation that covers the description
+    # field of symbol identity: its exemptions are the enumerated ones (an extra `continue` there lets two readings through)
+    n = SK.skips_rule(repo, res, tables.load("skips")["row"], only={"dfa::DFA::do_check_ambiguity_best_effort", "dfa::DFA::check_ambiguity_best_effort"})
+    res.floor("SKIPS", n, 6)
     intern_dedup(repo, res)
     from . import common
     # `||` behaves like `|` when matching: every pass over the expression treats a Fallback node exactly as it treats an
